@@ -242,7 +242,7 @@ def process_space(tier, seed):
     q = tier == "quick"
     alph = {
         "kind": ["nonideal_iso", "nonideal_noniso"],
-        "mixture": ["H2O_EtOH", "S2"] if q else ["H2O_EtOH", "MeOH_DMC", "S1", "S2", "S4"],
+        "mixture": ["H2O_EtOH", "S5"] if q else ["H2O_EtOH", "MeOH_DMC", "S1", "S2", "S4", "S5"],
         "model": ["NRTL"] if q else ["NRTL", "UNIQUAC"],
         "mode": ["vac", ("T", -20.0), ("p", 0.5)],
         "prog": ["none", "poly"],
